@@ -96,6 +96,16 @@ theorem rename_np (s : Store) (v : View) (hs : SearchOK s v) (o n : Bytes) : NP 
   unfold rename; simp only []
   generalize searchNode s v o .lstat = r at hex ⊢
   generalize searchNode s v n .lstat = r2
+  -- the first exits by hand: `split` on the whole body exceeds the step limit of its `simp`
+  by_cases h1 : (r.err != SErr.exists) = true
+  · rw [if_pos h1]; simp [NP]
+  rw [if_neg h1]
+  by_cases h2 : (r2.err != SErr.exists && r2.err != SErr.noent) = true
+  · rw [if_pos h2]; simp [NP]
+  rw [if_neg h2]
+  by_cases h3 : (r2.err == SErr.noent && !r2.pi.isLast) = true
+  · rw [if_pos h3]; simp [NP]
+  rw [if_neg h3]
   repeat' split
   all_goals simp_all [NP]
 
